@@ -59,15 +59,18 @@ def _is_valid_non_edges(molecule, link, rev_raw_match):
             continue
         from_mol_node_name = rev_raw_match[from_node]
         from_mol = molecule.nodes[from_mol_node_name]
-        # from_link = link.nodes[from_node]
+        from_link = link.nodes[from_node]
         from_resid = from_mol['resid']
-        # from_order = from_link.get('order', 0)
+        from_order = from_link.get('order', 0)
         for neighbor in molecule.neighbors(from_mol_node_name):
             to_mol = molecule.nodes[neighbor]
             to_link = to_node_attrs
             to_resid = to_mol['resid']
             to_order = to_link.get('order', 0)
-            if to_resid == from_resid + to_order and _atoms_match(to_mol, to_link):
+            # The orders are relative to the reference residue of the link,
+            # and can be any of the documented kinds (numbers, >, <, *).
+            if (match_order(from_order, from_resid, to_order, to_resid)
+                    and _atoms_match(to_mol, to_link)):
                 return False
     return True
 
